@@ -721,7 +721,12 @@ def env_matrix_cli(c, result, pid, queries, modes=('json', 'text')):
     """the real command in other environments (variables, locale, CPUs, open-file limit): it ends normally and shows
     the same locations and rows as in the default environment"""
     def show(args, ov):
-        rc, o, e = run_env([B + '/pathfinder', 'query', '--disable-metrics', '--project', c.proj] + args, ov, timeout=300, base=dict(ENV, HOME=c.work))
+        if ov[0].startswith('release build'):
+            # the command as released: telemetry key linked in, metrics NOT disabled (proxies point at a dead port)
+            cmdl = [B + '/pathfinder-release', 'query', '--project', c.proj]
+        else:
+            cmdl = [B + '/pathfinder', 'query', '--disable-metrics', '--project', c.proj]
+        rc, o, e = run_env(cmdl + args, ov, timeout=300, base=dict(ENV, HOME=c.work))
         text = re.sub(r'\x1b\[[0-9;]*m', '', o.decode('utf-8', 'replace'))
         j = text.rfind('Executing query: ')
         body = text[j:] if j >= 0 else text
@@ -734,7 +739,9 @@ def env_matrix_cli(c, result, pid, queries, modes=('json', 'text')):
         for mode in modes:
             args = ['--query', q] + (['--output', 'json'] if mode == 'json' else [])
             rc0, e0, base = show(args, ('default', {}, None))
-            for ov in ENV_MATRIX:
+            dead = 'http://127.0.0.1:9'
+            rel = [('release build, telemetry enabled', dict(HTTPS_PROXY=dead, HTTP_PROXY=dead, https_proxy=dead, http_proxy=dead), None)] if os.path.exists(B + '/pathfinder-release') else []
+            for ov in ENV_MATRIX + rel:
                 rc, e, got = show(args, ov)
                 c.stats['%s_environment_runs' % pid.lower()] += 1
                 if rc != rc0 or (pid == 'C10' and rc not in (0, 1)) or (pid != 'C10' and got != base):
